@@ -80,7 +80,7 @@ META = {
         level='eigh(target, noise) argument order, arg-max eigenvalue column / last pair of the ascending eigh, outer products with the conjugate on the second factor rescaled by '
               'tr(Phi)/tr(a a^H), Phi_nn w contracting the column index, both BAN chains and the (..., 1)-shaped absolute gain. Maximality of Rayleigh quotients is NOT decided; '
               'Cython variants are not analysed. '
-              'Also: BAN gain = sqrt(two-factor form) / magnitude of the one-factor form, in either operand order, np.divide(where=) or masked assignment. Also: the option string \'trace\' / \'eigenvalue\' selects the gain of that name. Also: a transposed Cholesky / eigenvector factor used as the coefficient of a solver carries a conjugation (R-HERM).',
+              'Also: BAN gain = sqrt(two-factor form) / magnitude of the one-factor form, in either operand order, np.divide(where=) or masked assignment. Also: the option string \'trace\' / \'eigenvalue\' selects the gain of that name. Also: a transposed Cholesky / eigenvector factor used as the coefficient of a solver carries a conjugation (R-HERM). Also: the vector get_pca_vector scales is the eigenvector itself (no np.sign factor).',
         note='Trusted: scipy.linalg.eigh(a, b) convention, numpy eigh ordering.',
         design='DESIGN.md section 3 (C12)'),
     'C13': dict(
